@@ -88,7 +88,8 @@ def build(placement, order, producer, noise, multi, kwarg=False, pathvar=False):
         # the loaded value is handed to a kept function as a run-time argument (the kept function itself does not load)
         r = add("rd", [["var", 1]], params=[["x", M.NO]])
         if placement == "kept_loaded_arg":
-            hb = [ld, ["keep", "/rd", r, "bare", [["loc", 0, "kw" if kwarg else "pos"]]]]
+            # (multi: the same path is loaded twice before the kept call)
+            hb = [ld] + ([ld] if multi else []) + [["keep", "/rd", r, "bare", [["loc", 0, "kw" if kwarg else "pos"]]]]
         else:
             hb = [["keep", "/rd", r, "bare", [["iload", "/src/v", "kw" if kwarg else "pos"]]]]
         h = add("h", hb)
